@@ -147,6 +147,12 @@ class Coverage:
         ck = cause[0] if isinstance(cause, tuple) else cause
         fp = []
         for n in w.nodes.values():
+            junk = n.table_junk()
+            if junk and not getattr(w, '_junk_reported', False):
+                # whatever the check is about: a table entry that is no IKE_SA wedges every sweep (C17) and falsifies the table (C16)
+                w._junk_reported = True
+                w.violation('C17', 'ike_sa_table_corrupted', {'entry': type(junk[0]).__name__},
+                            f'{n.name}: the IKE_SA table holds an entry that is no IKE_SA ({junk[0]!r}) after a {ck} step')
             fp.append(tuple(sorted((sa.is_initiator, int(sa.state), sa.my_msg_id % 4, sa.peer_msg_id % 4,
                                     len(sa.child_sas), len(sa.pending_events)) for sa in n.ike_sas())))
         fp = (tuple(fp), min(w.net.in_flight, 6), ck)
